@@ -326,8 +326,8 @@ def write_evidence(prop, a, seed, summary, obligations, reports, known_hits, vio
                 dest.append(L.function_source(q))
             except KeyError:
                 dest.append({"function": q, "missing": True})
-    proved_ids = [o for o, s in summary.items() if obligations[o][0].get("bounded") is None]
-    bounded_ids = [o for o, s in summary.items() if obligations[o][0].get("bounded") is not None]
+    proved_ids = [o for o, s in summary.items() if not obligations[o][0].get("bounded")]
+    bounded_ids = [o for o, s in summary.items() if obligations[o][0].get("bounded")]
     known_ids = {oid for oid, *_ in known_hits}
     backends = {}
     for obs in obligations.values():
@@ -338,6 +338,9 @@ def write_evidence(prop, a, seed, summary, obligations, reports, known_hits, vio
     for oid in sorted(summary)[:: max(1, len(summary) // 6)][:8]:
         o = obligations[oid][0]
         samples.append({"obligation": oid, "kind": o["kind"], "status": summary[oid], "backend": o.get("backend"), "time_s": o.get("time_s"), "bounded": o.get("bounded")})
+    with_text = [o for obs in obligations.values() for o in obs if o.get("smt2_head")]
+    for o in with_text[:: max(1, len(with_text) // 3)][:3]:
+        samples.append({"obligation": o["id"], "kind": o["kind"], "status": summary[o["id"]], "negated_obligation_smt2": o["smt2_head"], "smt2_chars": o.get("smt2_chars")})
     n_proved = len(proved_ids)
     n_proved_dis = sum(1 for o in proved_ids if summary[o] == "discharged" or o in known_ids)
     level = "proof" if n_proved > 0 else "other"
